@@ -12,7 +12,10 @@ UniformDH model.
         during the handshake it proceeds after every arrival → <state> <queued bytes>
         state: need-key | est | fail:<class> | panic
   eof <S>                          the read side ends → <state> <queued>
+  feedlast <S> <datahex> <class>   the final chunk: ONE conn.Read returns it together with an error of
+        that class (eof, reset, …); it must fit the read buffer (and the scan window) → ok
   read <S> <max>                   one Read with a buffer of max bytes → ok <plainhex> | block | fail <class>
+        | okerr <plainhex> <class> (bytes returned together with the error)
   write <S> <datahex> <tapehex>    one Write; the first one draws its padding from the tape
         → ok <tape bytes consumed> <netwrite>+
   writewith <S> <datahex> <padhex> one Write with explicit padding for the first one → ok 0 <netwrite>+
@@ -28,6 +31,10 @@ structure Sess where
   net : Net
   /-- the network delivered EOF after the queued bytes -/
   eof : Bool
+  /-- final chunk that the conn hands out together with an error (class name) -/
+  last : Option (Bytes × String) := none
+  /-- the error class later reads report -/
+  ended : Option String := none
 
 abbrev St := List (String × Sess)
 
@@ -59,7 +66,7 @@ def P : Prims := Prims.real
 
 def startReply (st : St) (name : String) (r : Except Stop (Conn × List Bytes)) (extra : String) : St × String :=
   match r with
-  | .ok (c, [w]) => (st.set name ⟨c, [], false⟩, s!"ok {hex w}{extra}")
+  | .ok (c, [w]) => (st.set name { c := c, net := [], eof := false }, s!"ok {hex w}{extra}")
   | .ok _ => (st, "bad-op")
   | .error (.fail e) => (st, "fail " ++ errName e)
   | .error .panic => (st, "panic")
@@ -112,8 +119,25 @@ def step (st : St) : List String → St × String
       | .data c out net => (st.set name { s with c := c, net := net }, "ok " ++ hex out)
       | .fail c e net => (st.set name { s with c := c, net := net }, "fail " ++ errName e)
       | .block c net =>
-        if s.eof then (st.set name { s with c := readEof c, net := net }, "fail eof")
-        else (st.set name { s with c := c, net := net }, "block")
+        match s.last, s.ended with
+        | some (ch, cls), _ =>
+          if ch.length > m || ch.length > window then (st, "bad-op") else
+          match readLast P c m ch with
+          | .data c' out => (st.set name { s with c := c', net := net }, "ok " ++ hex out)
+          | .dataErr c' out =>
+            (st.set name { s with c := c', net := net, last := none, ended := some cls }, s!"okerr {hex out} {cls}")
+          | .fail c' .closed => (st.set name { s with c := c', net := net }, "fail closed")
+          | .fail c' _ => (st.set name { s with c := c', net := net, last := none, ended := some cls }, "fail " ++ cls)
+        | none, some cls => (st.set name { s with c := readEof c, net := net }, "fail " ++ cls)
+        | none, none =>
+          if s.eof then (st.set name { s with c := readEof c, net := net }, "fail eof")
+          else (st.set name { s with c := c, net := net }, "block")
+    | _, _ => (st, "bad-op")
+  | ["feedlast", name, data, cls] =>
+    match st.get? name, unhex? data with
+    | some s, some d =>
+      if d.isEmpty then (st.set name { s with ended := some cls }, "ok")
+      else (st.set name { s with last := some (d, cls) }, "ok")
     | _, _ => (st, "bad-op")
   | ["write", name, data, tape] =>
     match st.get? name, unhex? data, unhex? tape with
